@@ -109,3 +109,15 @@ prop(id="C06", vfile="Properties/C06.v", runs=_pnft_runs, rule=PNFT_RULE,
 
 prop(id="C12", vfile="Properties/C12.v", runs=_pnft_runs, rule=PNFT_RULE,
      assumptions=CHAIN_ASSUME + ["x/nft keeper (pinned SDK v0.47.12) is modelled line by line (Pnft/Model.v), not verified"])
+
+
+FEE_RULE = ("fee monitor on the aol, did, pnft and burn profiles: for every transaction made only of custom-module messages (1-3 messages, "
+            "failing at any position, with/without fee, fee payer = first signer or the named add-record fee payer, wrong/missing/extra "
+            "signers) the balances of all four accounts, the burn address and the fee collector in both denominations and the total "
+            "supply are read before and after DeliverTx; the deltas are also compared line by line with the model (T lines)")
+prop(id="C15", vfile="Properties/C15.v",
+     runs=lambda tier, seed: [dict(profile="aol", seed=seed, n=_sizes(tier, 20, 1500), extra=["-blocks", "10"]),
+                              dict(profile="pnft", seed=seed, n=_sizes(tier, 15, 1000), extra=["-blocks", "10"]),
+                              dict(profile="did", seed=seed, n=_sizes(tier, 10, 1000), extra=["-blocks", "10"])],
+     rule=FEE_RULE + " || " + AOL_RULE, assumptions=CHAIN_ASSUME,
+     partial="the transaction pipeline (baseapp runTx, the ante decorators, x/bank) is SDK code: modelled from its source and checked differentially, not verified")
